@@ -285,9 +285,12 @@ pub async fn request_certificate(
 		.await
 		.map_err(HttpError::in_err)?;
 	drop(data_builder);
-	// Nothing is stored unless the body is a certificate for the key of this order.
-	let leaf = X509Certificate::from_pem(crt.as_bytes())
+	// Nothing is stored unless the whole body is a certificate chain for the key of this order.
+	let chain = X509Certificate::chain_from_pem(crt.as_bytes())
 		.map_err(|e| e.prefix("invalid certificate received"))?;
+	let leaf = chain
+		.first()
+		.ok_or_else(|| Error::from("invalid certificate received: no certificate found"))?;
 	if !leaf.inner_cert.public_key()?.public_eq(&key_pair.inner_key) {
 		return Err("the certificate received does not match the private key".into());
 	}
